@@ -294,7 +294,7 @@ func verifProduce(p verifProfile) *verifDoc {
 				}
 			}
 			body := verifBody(p.symbolic && symOK, rows, p)
-			ws, err := w.OpenStream(ref, Dict{"Kind": Name("S")}, fs...)
+			ws, err := w.OpenStream(ref, Dict{"Kind": Name("S"), "T": String("t(x")}, fs...)
 			verifrt.Assert(err == nil, "OpenStream succeeds")
 			if err != nil {
 				return nil
@@ -315,7 +315,7 @@ func verifProduce(p verifProfile) *verifDoc {
 				o2, o4 := Object(Integer(7)), Object(Name("after"))
 				inner := []byte("inner stream")
 				verifrt.Assert(w.Put(r2, o2) == nil, "Put during open stream is deferred")
-				verifrt.Assert(w.Put(r3, NewStream(Dict{"Kind": Name("S")}, inner)) == nil, "Put of a stream object during open stream is deferred")
+				verifrt.Assert(w.Put(r3, NewStream(Dict{"Kind": Name("S"), "T": String("t(x")}, inner)) == nil, "Put of a stream object during open stream is deferred")
 				verifrt.Assert(w.Put(r4, o4) == nil, "Put during open stream is deferred")
 				deferred = append(deferred, verifExpObj{r2, o2}, verifExpObj{r4, o4})
 				deferredStm = append(deferredStm, verifExpStm{r3, inner})
